@@ -115,3 +115,88 @@ def search():
 
 def count_cases():
     return 18
+
+
+SITE = {
+    "src/geometry.f90": """module geometry
+  !! summary: the module of [[vector]] and [[scale]], limit [[tolerance]]
+  !!
+  !! geometry doc
+  implicit none
+  real :: tolerance
+    !! tolerance doc
+  type :: vector
+    !! vector doc
+    real :: x
+  end type vector
+contains
+  subroutine scale(v, factor)
+    !! summary: multiplies [[scale:v]] by [[factor]], see [[tolerance]]
+    !!
+    !! scale doc
+    type(vector) :: v
+      !! v doc
+    real :: factor
+      !! factor doc, of [[scale]] in [[geometry]]
+    type :: workspace
+      !! workspace doc, see [[vector]] and [[geometry]]
+      real :: buffer
+        !! buffer doc, see [[vector]] and [[geometry]]
+    contains
+      procedure :: flush
+        !! binding doc, see [[geometry]]
+    end type workspace
+  contains
+    subroutine flush(self)
+      !! flush doc
+      class(workspace) :: self
+    end subroutine flush
+  end subroutine scale
+end module geometry
+""",
+}
+# (page, text that must appear as a link on it, target relative to the output directory)
+SITE_LINKS = [
+    ("proc/scale.html", "vector", "type/vector.html"), ("proc/scale.html", "geometry", "module/geometry.html"), ("proc/scale.html", "scale", "proc/scale.html"),
+    ("module/geometry.html", "factor", "proc/scale.html"), ("module/geometry.html", "v", "proc/scale.html"),
+    ("module/geometry.html", "scale", "proc/scale.html"), ("module/geometry.html", "vector", "type/vector.html"), ("module/geometry.html", "tolerance", "module/geometry.html"),
+    ("lists/modules.html", "vector", "type/vector.html"), ("lists/procedures.html", "factor", "proc/scale.html"),
+]
+
+
+def site_references():
+    """[[...]] references in the comment of an entity any number of levels below the page that shows it (a type local to a procedure, its components and bindings), and in
+    `summary:` metadata (shown on the entity's page, on its parent's page and on the list pages): every one becomes a link, found through the entity's own scope, that leads to
+    the target from the page it stands on"""
+    import os
+    from bounded import site
+    with site.site(SITE, "src_dir: ./src\noutput_dir: ./doc\ngraph: false\nsearch: false\nproc_internals: true\ndisplay: public\n         private\n         protected\n") as (pd, status):
+        inp = {"files": SITE, "options": "proc_internals: true, display: public private protected"}
+        if not status.startswith("ok"):
+            return {"confirmed": True, "input": inp, "actual": f"run failed: {status}", "expected": "ok", "how": "end-to-end run"}
+        out = os.path.join(pd, "doc")
+        bad, n, npages = site.walk_links(out)
+        for page, text, target in SITE_LINKS:
+            p = os.path.join(out, page)
+            html_ = open(p, encoding="utf-8", errors="replace").read() if os.path.exists(p) else ""
+            hrefs = re.findall(r"<a href=['\"]([^'\"]*)['\"][^>]*>\s*" + re.escape(text) + r"\s*</a>", html_)
+            ok = any(os.path.normpath(os.path.join(os.path.dirname(page), h.split("#")[0])) == os.path.normpath(target) for h in hrefs)
+            if not ok:
+                bad.append(f"{page}: the reference to `{text}` is not a link to {target} (links with that text: {hrefs[:3]})")
+        left = [pg for pg in ("proc/scale.html", "module/geometry.html") if "[[" in re.sub(r"<code.*?</code>", "", open(os.path.join(out, pg), encoding="utf-8").read(), flags=re.S)]
+        bad += [f"{pg}: an unconverted [[...]] reference is left in the text" for pg in left]
+        # entities two levels below the page that describes them (component and binding of the local type): their rendered comment links relative to that page, like their parent's
+        proj = realrun.build_project(SITE, display=["public", "private", "protected"], proc_internals=True)
+        mdm = loader.import_repo("ford._markdown")
+        proj.markdown(mdm.MetaMarkdown(project=proj, base_url=".."))
+        ws = proj.modules[0].subroutines[0].types[0]
+        for ent in [ws] + list(ws.variables) + list(ws.boundprocs):
+            for h in re.findall(r"<a href=['\"]([^'\"]*)['\"]", ent.doc):
+                if not h.startswith("../"):
+                    bad.append(f"comment of {ent.obj} `{ent.name}` (described on proc/scale.html): link `{h}` is not relative to that page")
+            if "[[" in ent.doc:
+                bad.append(f"comment of {ent.obj} `{ent.name}`: an unconverted [[...]] reference is left")
+        if bad:
+            return {"confirmed": True, "input": inp, "actual": sorted(set(bad))[:8], "expected": "every reference is a link that leads to its target from the page it is shown on",
+                    "how": f"end-to-end run; {n} links on {npages} pages followed; the links expected from the comments looked up by their text"}
+    return None
